@@ -5,7 +5,8 @@
        orig     |-> <<section id>> kept sections of the original CAR in file order (ids 1..k),
        families |-> <<<<section id>>>> the block families (children then block) in file order,
        pieces   |-> <<[hdr, content, file, hdrActual, regionOK, secs |-> <<id>> (0 = bytes differ from every original section)]>>,
-       readback |-> <<id>> sections parsed from the reassembled CAR read through the split-CAR reader, headerOK *)
+       readback |-> <<id>> sections parsed from the reassembled CAR read through the split-CAR reader, headerOK,
+       mergedlen, mergewant, mergedsame: the real merge-cars over the written pieces (growth, judged as drift) *)
 EXTENDS MultiReaderAbs, SequencesExt, TLC, Json
 Trace == ndJsonDeserialize("obs.ndjson")
 VARIABLE l
@@ -23,11 +24,15 @@ AcceptSplit(r) ==
     /\ \A i \in 1..Len(r.families) : FamilyWhole(r.pieces, r.families[i])
     /\ \A k \in 1..Len(r.pieces) : LET p == r.pieces[k] IN
           p.regionOK /\ p.hdr = p.hdrActual /\ p.hdr + p.content <= p.file /\ p.secs # <<>>
+          /\ p.trailorig = 0                               \* nothing of the original CAR after the content region (an object is in ONE piece)
     /\ r.headerOK /\ r.readback = r.orig                  \* the reassembled CAR reads back as the original
 Accept(r) == IF r.kind = "split" THEN AcceptSplit(r) ELSE AcceptReads(r)
+\* growth (not part of C16's statement): merge-cars of the written pieces = nul-root header ++ every piece without its header
+MergeOK(r) == r.kind = "split" /\ r.err = "" => r.mergedsame
 Init == l = 1
 Next == /\ l <= Len(Trace) /\ l' = l + 1
-        /\ IF Accept(Trace[l]) THEN TRUE ELSE PrintT("@@REJECT@@ " \o ToString(l))
+        /\ IF ~Accept(Trace[l]) THEN PrintT("@@REJECT@@ " \o ToString(l))
+           ELSE IF ~MergeOK(Trace[l]) THEN PrintT("@@REJECT@@ " \o ToString(l) \o " merge") ELSE TRUE
 Spec == Init /\ [][Next]_l
 HW == TLCSet(1, l)
 Done == PrintT("@@CONSUMED@@ " \o ToString(TLCGet(1) - 1))
